@@ -229,6 +229,11 @@ impl RecvWindow {
         }
 
         if let Some(msg_len) = hdr.get_msg_len() {
+            if self.rem_msg_len > 0 {
+                warn!("RX data integrity failure: A new SDU begins before the previous one is complete");
+                Err(ErrorCode::InvalidData)?;
+            }
+
             if msg_len as usize + hdr.len() <= mtu as usize && !hdr.is_final() {
                 warn!("RX data integrity failure: An SDU that fits in a single BTP segment must be final");
                 Err(ErrorCode::InvalidData)?;
